@@ -347,7 +347,7 @@ def h6(ctx, rid):
                 ctx.bad(rid, key, c.where(), 'blob id counter modified by `%s`' % c.name)
                 continue
             root = prog.fns[prog.fns[f.id].root]
-            excl = root.argc >= 1 and root.locals[1]['s'].startswith('&mut storage::core::Storage<')
+            excl = core.runs_exclusive(prog, root.id)
             if not excl:
                 ctx.bad(rid, key, c.where(), 'blob id counter %s outside initialisation (the function does not hold &mut Storage)' % c.name)
                 continue
